@@ -18,6 +18,10 @@ pub fn alphabet_model(id: &str, ns: &str, name: &str, builds: bool) -> String {
   <decision name="v" id="d_v"><variable name="v"/>
     <literalExpression><text>"{id}"</text></literalExpression>
   </decision>
+  <inputData name="n" id="i_n"><variable name="n" typeRef="number"/></inputData>
+  <decision name="slow" id="d_slow"><variable name="slow"/><informationRequirement><requiredInput href="#i_n"/></informationRequirement>
+    <literalExpression><text>count(for i in 1..n return i * i)</text></literalExpression>
+  </decision>
   <businessKnowledgeModel name="echo" id="b_echo"><variable name="echo"/>
     <encapsulatedLogic><formalParameter name="x"/><literalExpression><text>x</text></literalExpression></encapsulatedLogic>
   </businessKnowledgeModel>
